@@ -480,6 +480,13 @@ pub broadcast axiom fn axiom_id_determines_obj(a: Root<ObjString>, b: Root<ObjSt
 
 // Two strings created at any two points of a history (s1: store after the first creation, s2: store before the second,
 // reached from s1 by any number of further creations, which only add keys) are the same object iff their bytes are equal.
+// C11 speaks about every string "however it was produced": that holds only if the intern table is the one place where
+// string objects are made. A frame condition on the crate, decided from the call sites as they stand on this run
+// (ObjString's fields are private to object.rs, so `ObjString::new` is the only way to build one):
+//@callsites file=yarel/src/vm.rs,yarel/src/core.rs,yarel/src/object.rs,yarel/src/value.rs,yarel/src/compiler.rs,yarel/src/memory.rs impl=* name=objstring_new pattern="ObjString\s*::\s*new\s*\(|ObjString\s*\{" allowed=Vm::new_gc_obj_string,ObjString::new
+//@lemma name=every_string_object_is_made_by_the_intern_table props=C11
+pub proof fn every_string_object_is_made_by_the_intern_table() ensures UNEXPECTED_CALLERS_OF_OBJSTRING_NEW == 0 {}
+
 //@lemma name=lemma_c11_identity_iff_content props=C11
 proof fn lemma_c11_identity_iff_content(s1: Slots, s2: Slots, s3: Slots, d1: Seq<char>, d2: Seq<char>, x1: Root<ObjString>, x2: Root<ObjString>, id1: int, id2: int)
     requires
